@@ -56,6 +56,7 @@ pub fn worker_run(seed: u64, k: u64, profile: &'static str, supported: Arc<BTree
   } else {
     sets.insert("combos_ok".into(), json!(res.stats.combos_ok));
   }
+  if !res.stats.not_code.is_empty() { sets.insert("not_code_texts".into(), json!(res.stats.not_code)); }
   json!({
     "digest": res.digest,
     "nontrivial": res.stats.state_changes > 0,
